@@ -4,7 +4,8 @@ package control
 
 // Add-only verification hook (C05): read-only dump of the controller's regions.
 
-// VerifGate is a copy of a gate's identity as seen by its region.
+// VerifGate is a copy of a gate's identity as seen by its region. Position is only used
+// by the harness to order the gates of a region (earliest open first).
 type VerifGate struct {
 	Subject   string
 	Authority uint8
@@ -14,7 +15,6 @@ type VerifGate struct {
 // VerifRegion is a copy of one region's bookkeeping.
 type VerifRegion struct {
 	Start, End  int64
-	Counter     uint
 	Resource    uint32
 	HasCurr     bool
 	CurrInGates bool
@@ -32,7 +32,6 @@ func (c *Controller[R]) VerifDump() []VerifRegion {
 		vr := VerifRegion{
 			Start:    int64(r.timeRange.Start),
 			End:      int64(r.timeRange.End),
-			Counter:  r.counter,
 			Resource: r.resource.ChannelKey(),
 		}
 		if r.curr != nil {
